@@ -265,7 +265,7 @@ class Network:
                     intro_peer, service, new_style = self._all_addresses[address]
                     if old_style and new_style:
                         continue
-                    services = self.services_per_peer.get(intro_peer, set())
+                    services = set(self.services_per_peer.get(intro_peer, ()))
                     if service:
                         services.add(service)
                     if service_id in services:
